@@ -636,6 +636,8 @@ func (e *EvalCtx) call(n ECall) Val {
 			e.fail("unknown type %s", exprString(n.Args[0]))
 		}
 		return intVal(e.c.eng.typeTag(t))
+	case "boxlen": // boxlen(x): length of the slice held by interface value x
+		return intVal("(box_len " + arg(0).IVal + ")")
 	case "strval": // string payload of an interface value
 		return Val{K: KStr, T: arg(0).IStr, Typ: types.Typ[types.String]}
 	case "intval": // integer payload of an interface value
